@@ -429,6 +429,12 @@ def task_sections(pr, repo):
     pr.explore(ex, thunk, 'sections')
 
 
+def write_pka_task(pr, repo):
+    # every section of the written file is that of the conformation asked for (C10-WP)
+    from . import C10
+    C10.task_write_pka(pr, repo)
+
+
 def average_twins_task(pr, repo):
     from . import C08
     C08.task_average_twins(pr, repo)
@@ -453,7 +459,7 @@ WRITERS = {
 
 def run(pr, repo):
     pr.parallel([(task_total, ()), (task_sequencing, ()), (task_swap, ()), (task_swap_once, ()), (task_average, ()),
-                 (task_render, ()), (task_sections, ()), (average_task, (2,)), (average_twins_task, ())])
+                 (task_render, ()), (task_sections, ()), (average_task, (2,)), (average_twins_task, ()), (write_pka_task, ())])
     for f, allowed in WRITERS.items():
         frames.clause(pr, repo, 'writers of .%s are the declared ones' % f, f, 'writers', allowed)
     pr.assumptions += ['A-REAL: float sums re-associate; the numeric text of the .pka rows (2 decimals) is checked by the '
